@@ -172,6 +172,10 @@ func newOpState(op OpSpec, t *task) (*opState, context.Context, error) {
 		return nil, nil, fmt.Errorf("bad ctx kind %q", op.Ctx)
 	}
 	var ctx context.Context = &simctx{st: st}
+	if op.Fault != nil && op.Fault.Model == "pre" {
+		// Done before the entry point is even called.
+		st.fire()
+	}
 	return st, ctx, nil
 }
 
